@@ -83,6 +83,19 @@ theorem run_ok (ps : List Seg) : ∀ r, ∃ out, run r ps = .ok out := by
     obtain ⟨⟨r'', ds⟩, h2⟩ := ih r'
     exact ⟨(r'', d ++ ds), by simp [run, h1, h2]⟩
 
+theorem addressString_ok (a : Addr) : ∃ s, addressString a = .ok s := by
+  unfold addressString
+  by_cases h : (a.ton = 1 && a.npi = 1 && a.no.length > 0) = true
+  · simp only [h, ↓reduceIte]
+    have hl : 0 < a.no.length := by
+      simp only [Bool.and_eq_true, decide_eq_true_eq] at h; exact h.2
+    obtain ⟨c, hc, _⟩ := idx_ok "address.go p.No[0]" a.no 0 hl
+    rw [hc]
+    simp only
+    split <;> exact ⟨_, rfl⟩
+  · simp only [h, Bool.false_eq_true, ↓reduceIte]
+    exact ⟨_, rfl⟩
+
 theorem messageStateString_ok (names : List String) (m : Nat) : ∃ s, messageStateString names m = .ok s := by
   unfold messageStateString
   by_cases h : m ≥ names.length
